@@ -1,2 +1,5 @@
 void h_MixStack(void) { SchindelhauerTMCG *self; TMCG_Stack_VTMF_Card *s, *s2; TMCG_StackSecret_VTMF_CardSecret *ss; BarnettSmartVTMF_dlog *vtmf; _Bool t;
   SchindelhauerTMCG__TMCG_MixStack(self, s, s2, ss, vtmf, t); }
+void h_import(void) { TMCG_StackSecret_VTMF_CardSecret *self; str_t s; TMCG_StackSecret_VTMF_CardSecret__import(self, s); }
+void h_css_pi(void) { SchindelhauerTMCG *self; TMCG_StackSecret_VTMF_CardSecret *ss; vec_ulong *pi; size_t n; BarnettSmartVTMF_dlog *v; SchindelhauerTMCG__TMCG_CreateStackSecret_pi(self, ss, pi, n, v); }
+void h_css_cyclic(void) { SchindelhauerTMCG *self; TMCG_StackSecret_VTMF_CardSecret *ss; _Bool c; size_t n; BarnettSmartVTMF_dlog *v; SchindelhauerTMCG__TMCG_CreateStackSecret_cyclic(self, ss, c, n, v); }
